@@ -16,6 +16,7 @@ RULE = ('one evaluation = one scenario (2-5 threads, 5-40 operations) under one 
         'exited), timer (start / stop / cleanup with counting callbacks), console (real console worker reading simulated stdin, EOF, '
         'shutdown); spurious condition-variable wake-ups injected in some runs. non-trivial = more than two context switches; '
         'distinct = distinct (scenario class, order of operation completions across threads).')
+RULE += (' Later additions: a socket in the simulated event set beside the eventfd (readiness events and completions through the same slots of a static event array); timed join before stop; queue clear with blocked writers.')
 COMPONENTS = {'real': ['lib/async/async_runtime_epoll.c', 'lib/async/async_queue.c', 'lib/async/async_worker_pthread.c', 'lib/async/console_worker.c', 'lib/port/timer.cpp', 'lib/port/sync.cpp'],
               'stub': ['pthread mutex/cond/create/join, eventfd, epoll, read(stdin), select, nanosleep, clock_gettime: modelled by the scheduler (interposed from the executable)',
                        'driver globals read by the timer callback in src/backend.c are not linked in this engine']}
